@@ -286,6 +286,76 @@ def arith_value_rule(ctx, R, L, sem):
                 R.ok(inst, sample='%s at %d bits: result and CF/OF/ZF/SF/PF as IA-32 defines them on %d operand vectors' % (name, w, n))
 
 
+def address_value_rule(ctx, R, L, sem):
+    """The decoder merges base and index when they are one register (eax + eax*4 carries the coefficient 5): the lifted address is evaluated, not read."""
+    I = L.I
+    afs = L.X.afs
+    d2e = I.g.get('dict_to_Expr')
+    if d2e is None:
+        raise AnalysisError('ia32_sem.dict_to_Expr not found')
+    base_op = None
+    for inst in L.instances:
+        for od in inst.operands:
+            if od.get(afs.ad) and any(isinstance(k, int) for k in od) and not any(v is not None and v for k, v in inst.modifs.items() if k not in (L.X.env.get('w8'),)) \
+                    and od.get(afs.size) == afs.u32:
+                base_op = (od, inst)
+                break
+        if base_op:
+            break
+    if base_op is None:
+        raise AnalysisError('no plain 32-bit memory operand form among the lifter forms')
+    od0, inst0 = base_op
+    proto = dict((a, b) for a, b in od0.items() if not isinstance(a, int) and a != afs.imm)
+    names32 = list(afs.reg_list32)
+    val = dict(zip(names32, (0x11111111, 0x80000003, 0x7FFFFFF5, 0x00010007, 0xFFFFFFF9, 0x2468ACE1, 0x0000FFFF, 0xDEADBEEF)))
+    from ..lifter import ModVal
+    cases = []
+    for c in (1, 2, 3, 4, 5, 8, 9):
+        for disp in (None, 0x10, -4 & 0xffffffff):
+            cases.append(({3: c}, disp))
+    for c in (1, 2, 4, 8):
+        cases.append(({0: 1, 6: c}, None))
+        cases.append(({5: 1, 1: c}, 0x7fffff00))
+    n = 0
+    for admode, bits in (('u32', 32), ('u16', 16)):
+        for regs, disp in cases:
+            if admode == 'u16' and (any(c_ not in (1,) for c_ in regs.values()) or len(regs) > 2):
+                continue
+            d = dict(proto)
+            d.update(regs)
+            if disp is not None:
+                d[afs.imm] = ModVal(bits, disp)
+            inst = 'address[%s%s,%s]' % ('+'.join('%d*%s' % (c_, names32[k_]) for k_, c_ in sorted(regs.items())), '' if disp is None else '+%#x' % disp, admode)
+            try:
+                r = I.run(d2e, [d, inst0.modifs, inst0.opmode, admode, set()])
+            except LiftUnknown as e:
+                raise AnalysisError('dict_to_Expr outside the modelled subset on %s: %s' % (d, e))
+            for dec, t in r:
+                if isinstance(t, LiftError):
+                    R.ok(inst + ':error', nontrivial=False)       # C11.D1 reports operands that do not lift
+                    continue
+                if t.kind != 'Mem':
+                    R.violation(inst, 'address:not-memory', 'the memory operand %s is lifted to %s' % (inst, show(t)), where(sem, d2e.node))
+                    continue
+                v16 = dict((k_, v_ & 0xffff) for k_, v_ in val.items())
+                try:
+                    got, w = eval_small(t.arg, val)
+                except Refuse:
+                    try:
+                        names16 = dict((str(n16), val[n32] & 0xffff) for n16, n32 in zip(getattr(afs, 'reg_list16', []), names32))
+                        got, w = eval_small(t.arg, dict(val, **names16))
+                    except Refuse as e:
+                        raise AnalysisError('%s: address %s outside the evaluable subset: %s' % (inst, show(t.arg), e))
+                want = (sum(c_ * val[names32[k_]] for k_, c_ in regs.items()) + (disp or 0)) & ((1 << bits) - 1)
+                n += 1
+                if got & ((1 << bits) - 1) == want:
+                    R.ok(inst, sample='%s -> @[%s]' % (inst, show(t.arg)))
+                else:
+                    R.violation(inst, 'address:%s:%s' % (admode, '+'.join('%d*r' % c_ for _, c_ in sorted(regs.items()))), 'the operand %s is lifted to the address %s, whose value for %s is %#x; '
+                                'the processor computes %#x' % (inst, show(t.arg), ', '.join('%s=%#x' % (names32[k_], val[names32[k_]]) for k_ in sorted(regs)), got, want), where(sem, d2e.node),
+                                witness='8d 04 80 (lea eax, [eax+eax*4])')
+
+
 def same_register_parts_rule(ctx, R, L, sem):
     """Two-operand instructions that write both operands (xchg, xadd) on two parts of one register (al, ah)."""
     from ..lifter import TId, TSlice
@@ -1153,6 +1223,9 @@ def run(ctx, report):
     R17 = report.rule('C04.D17', 'add / adc / sub / sbb / cmp / neg / inc / dec / xadd / cmpxchg: result, CF, OF, ZF, SF and PF of the lifted assignments equal the IA-32 definition on boundary '
                       'operands x carry-in at 8, 16 and 32 bits (lifted assignments evaluated)', floor=25)
     arith_value_rule(ctx, R17, L, sem)
+    R18 = report.rule('C04.D18', 'the effective address of a memory operand (dict_to_Expr evaluated on base / index coefficients 1, 2, 3, 4, 5, 8, 9, two registers, displacements, '
+                      '32- and 16-bit address size) is the sum of coefficient x register plus displacement, reduced to the address size', floor=20)
+    address_value_rule(ctx, R18, L, sem)
     R12 = report.rule('C04.D12', 'shifts and rotates: result, CF, OF (count 1) and ZF/SF/PF of the lifted assignments equal the IA-32 definition on boundary operands x counts', floor=25)
     shift_value_rule(ctx, R12, L, sem)
     R13 = report.rule('C04.D13', 'bt/bts/btr/btc on memory: a register bit offset is signed and selects the cell, an immediate offset stays inside the operand (lifted carry evaluated)', floor=16)
